@@ -209,6 +209,11 @@ func (r *lrun) body(id int64) func() {
 		r.stamp(lReturn, id, 0)
 		r.finished.Add(1)
 		r.endOnce[id].Do(func() { close(r.ended[id]) })
+		// a third of the plainly returning bodies end their goroutine with runtime.Goexit() (what t.Fatal / t.FailNow do
+		// inside a task): for the Limiter that is a function that has finished, its slot must come back like any other
+		if !c19Panics(r.kind[id]) && id%3 == 2 {
+			runtime.Goexit()
+		}
 	}
 }
 
